@@ -82,6 +82,7 @@ func (x *Exec) tick() {
 		x.tieRestore = -1
 	}
 	time.Sleep(100 * time.Microsecond)
+	progress.Add(1)
 }
 
 func (x *Exec) settle() { synctest.Wait() }
@@ -141,7 +142,7 @@ func (x *Exec) observe() *Obs {
 	}
 	// what the server wrote on stream control connections, frame by frame, as pseudo-datagrams
 	for _, c := range x.w.clients {
-		if !c.Stream || c.Conn == nil {
+		if !c.Stream || c.Conn == nil || c.Stalled {
 			continue
 		}
 		data, _ := c.Conn.ReadAvailable()
